@@ -31,6 +31,7 @@ SetupStep ==
     [] s[1] = "Tick"       -> TimerTick(now + s[2]) /\ UNCHANGED nSub
     [] s[1] = "Pub"        -> Publish(100 + depth, IF Len(s) > 1 THEN s[2] ELSE <<>>, now, 0) /\ UNCHANGED nSub
     [] s[1] = "SetPubMode" -> SetPublishingMode(s[2], s[3]) /\ UNCHANGED nSub
+    [] s[1] = "ModifySub"  -> ModifySub(s[2], s[3], s[4], s[5], s[6]) /\ UNCHANGED nSub
     [] s[1] = "DeleteSub"  -> DeleteSub(s[2]) /\ UNCHANGED nSub
     [] s[1] = "DeleteItem" -> DeleteItem(s[2], s[3]) /\ UNCHANGED nSub
     [] s[1] = "Republish"  -> Republish(s[2], s[3]) /\ UNCHANGED nSub
@@ -46,6 +47,12 @@ Free ==
      /\ UNCHANGED <<nPub, nWrite, nTick>>
   \/ /\ "DeleteSub" \in Acts /\ \E id \in SubIds : DeleteSub(id) /\ UNCHANGED <<nPub, nWrite, nTick, nSub>>
   \/ /\ "SetPubMode" \in Acts /\ \E id \in SubIds, en \in BOOLEAN : (id \in DOMAIN subs /\ subs[id].en # en /\ SetPublishingMode(id, en))
+     /\ UNCHANGED <<nPub, nWrite, nTick, nSub>>
+  \/ /\ "ModifySub" \in Acts
+     /\ \E id \in SubIds, ka \in KAs, x \in LtExtra, pr \in Prios, iv \in Itvs :
+          (id \in DOMAIN subs
+           /\ <<ka, 3 * ka + x, pr, iv>> # <<subs[id].maxKA, subs[id].maxLT, subs[id].prio, subs[id].itv>>
+           /\ ModifySub(id, ka, 3 * ka + x, pr, iv))
      /\ UNCHANGED <<nPub, nWrite, nTick, nSub>>
   \/ /\ "CreateItem" \in Acts
      /\ \E id \in SubIds, i \in ItemIds, n \in Nodes, qs \in QSizes, d \in Dolds, sm \in Samps :
